@@ -71,7 +71,10 @@ Render(S, rd) ==
 \* secret.txt.br / in <parent2> only as secret.txt.gz; <parent2> has only index.html.gz
 SegClasses == {"a.txt", "sub", "index.html", "b.txt", ".", "..", "", "%2e%2e", "%2f", "canary.txt", "canary2.txt", "root", "parent",
                "c.txt", "d.txt", "secret.txt"}
-SegSeqs == UNION { [1..n -> SegClasses] : n \in 0..MaxSegs }
+\* sequences longer than 4 are built over the classes that move the walk (16^5 requests would not add behaviour)
+CoreClasses == {"sub", ".", "..", "", "%2e%2e", "root", "parent", "canary.txt", "secret.txt", "a.txt"}
+SegSeqs == UNION { [1..n -> SegClasses] : n \in 0..(IF MaxSegs < 4 THEN MaxSegs ELSE 4) }
+           \cup UNION { [1..n -> CoreClasses] : n \in 5..MaxSegs }
 Mounts == {"", "pre", "tar"}
 \* the file a plain request must be answered with (only stated for paths without dot / empty / encoded segments)
 Target(segs) ==
